@@ -760,6 +760,8 @@ func runC05(c *Ctx) {
 	g.decisionRule(r7, "query")
 	r8 := c.Rule("R8", "no write through a pointer into a parser buffer that may have moved", 2)
 	staleInteriorRule(g, r8)
+	r9 := c.Rule("R9", "next() is called only on a peeked token (query parser and parser core)", 1)
+	g.peekedBeforeNext(r9, map[string]bool{"query": true, "core": true})
 }
 
 func runC06(c *Ctx) {
@@ -792,6 +794,8 @@ func runC06(c *Ctx) {
 
 	r7 := c.Rule("R7", "decisions do not depend on ignored tokens (schema parser)", 20)
 	g.decisionRule(r7, "schema")
+	r8 := c.Rule("R8", "next() is called only on a peeked token (schema parser)", 1)
+	g.peekedBeforeNext(r8, map[string]bool{"schema": true})
 }
 
 // subParsers: the parse*/some-closure calls a production makes, as names (order-insensitive).
